@@ -260,6 +260,17 @@ class NPShim:
             raise TypeError("ufunc 'signbit' not supported for the input types")
         return SBool(T.to_real(x.v.re) < 0)
 
+    def isclose(self, a, b, rtol=1e-05, atol=1e-08, **k):
+        if not (is_proxy(a) or is_proxy(b)):
+            return real_np.isclose(a, b, rtol=rtol, atol=atol, **k)
+        # |a - b| <= atol + rtol * |b| over the reals (scalars only)
+        va, vb = P.as_v(a), P.as_v(b)
+        if va.kind == "complex" or vb.kind == "complex":
+            raise Abort("np.isclose on complex proxies")
+        d = T.to_real(va.re) - T.to_real(vb.re)
+        ab = z3.If(T.to_real(vb.re) >= 0, T.to_real(vb.re), -T.to_real(vb.re))
+        return SBool(z3.And(d <= T._realval(atol) + T._realval(rtol) * ab, -d <= T._realval(atol) + T._realval(rtol) * ab))
+
     def all(self, x, *a, **k):
         if type(x) is SBool:
             return x
